@@ -41,7 +41,25 @@ type ttlCase struct {
 	Size       int      `json:"queue_size"`
 	Arrivals   []ttlArr `json:"arrivals"`
 	ShutdownMs int      `json:"shutdown_after_ms,omitempty"` // >0: cancel that long after the last arrival; 0: after every verdict
+	// AheadMs > 0: the process clock gains that many milliseconds per second on the timers - what a loaded machine
+	// looks like from the inside: the goroutine that reads the clock (the processing tick) runs on time, the
+	// runtime timers (the TTL watcher's) fire late, the later the longer they are
+	AheadMs int `json:"clock_gains_ms_per_s_on_timers,omitempty"`
 }
+
+// aheadClock is the real clock whose readings run ahead of its timers: by `by` per second since `since`.
+type aheadClock struct {
+	lclock.Clock
+	by    time.Duration
+	since time.Time
+}
+
+func (c aheadClock) Now() time.Time {
+	now := c.Clock.Now()
+	return now.Add(time.Duration(float64(now.Sub(c.since)) * float64(c.by) / float64(time.Second)))
+}
+func (c aheadClock) Since(t time.Time) time.Duration { return c.Now().Sub(t) }
+func (c aheadClock) Until(t time.Time) time.Duration { return t.Sub(c.Now()) }
 
 type ttlOutcome struct {
 	Infra, Inconclusive, Violation string
@@ -54,7 +72,12 @@ func runTTL(tc ttlCase) (o ttlOutcome) {
 	cfg := config{Max: tc.Max, WindowS: 1, Size: tc.Size, TTL: ttlSeconds} // window: 1 minute, never re-opens during a case
 	class := func(c string) { o.Classes = append(o.Classes, c) }
 	tracef := func(f string, a ...any) { o.Trace = append(o.Trace, fmt.Sprintf(f, a...)) }
-	engine.SetClock(lclock.NewRealClock())
+	if tc.AheadMs > 0 {
+		engine.SetClock(aheadClock{lclock.NewRealClock(), time.Duration(tc.AheadMs) * time.Millisecond, time.Now()})
+		class("clock ahead of the timers")
+	} else {
+		engine.SetClock(lclock.NewRealClock())
+	}
 	ctx, cancel := context.WithCancel(context.Background())
 	defer cancel()
 	context_manager.Get().WithContext(ctx)
@@ -260,7 +283,8 @@ func runTTL(tc ttlCase) (o ttlOutcome) {
 
 func genTTL() *rapid.Generator[ttlCase] {
 	return rapid.Custom(func(t *rapid.T) ttlCase {
-		tc := ttlCase{Max: rapid.IntRange(1, 2).Draw(t, "max"), Size: rapid.IntRange(1, 4).Draw(t, "size")}
+		tc := ttlCase{Max: rapid.IntRange(1, 2).Draw(t, "max"), Size: rapid.IntRange(1, 4).Draw(t, "size"),
+			AheadMs: rapid.SampledFrom([]int{0, 0, 60, 150, 250}).Draw(t, "ahead")}
 		mid := rapid.IntRange(0, 3).Draw(t, "midshutdown") == 0
 		n := rapid.IntRange(2, 5).Draw(t, "n")
 		for i := 0; i < n; i++ {
